@@ -181,13 +181,13 @@ func checkC11(r *Result) []Violation {
 		keyOf[ci] = ref.PhoneDigits(c.Phone)
 	}
 	type connH struct {
-		firstHandled  int // step of the delivery that completed the first handled frame (0 none)
-		joinEv        *Ev
-		joins         int
-		leaves        []Ev
-		endCause      int // step of fin/rst (0 none)
-		srvClose      int
-		joinedOK      bool
+		firstHandled int // step of the delivery that completed the first handled frame (0 none)
+		joinEv       *Ev
+		joins        int
+		leaves       []Ev
+		endCause     int // step of fin/rst (0 none)
+		srvClose     int
+		joinedOK     bool
 	}
 	hs := make([]*connH, nconn)
 	for i := range hs {
